@@ -12,6 +12,16 @@ structure Inv (rk : Nat → Nat) (s : State) : Prop where
 theorem Inv.shapeEq {rk : Nat → Nat} {s s' : State} (h : ShapeEq s s') (i : Inv rk s) : Inv rk s' :=
   ⟨i.wf.shapeEq h, i.ranked.shapeEq h⟩
 
+/-- the part of `Inv` the memlimit accounting relies on -/
+structure InvT (rk : Nat → Nat) (s : State) : Prop where
+  wf : WFt s
+  ranked : Ranked rk s
+
+theorem Inv.t {rk : Nat → Nat} {s : State} (i : Inv rk s) : InvT rk s := ⟨i.wf.tree, i.ranked⟩
+
+theorem InvT.shapeEq {rk : Nat → Nat} {s s' : State} (h : ShapeEq s s') (i : InvT rk s) : InvT rk s' :=
+  ⟨i.wf.shapeEq h, i.ranked.shapeEq h⟩
+
 /-- nothing becomes pending that was not pending before -/
 def NoNewPending (s s' : State) : Prop :=
   ∀ (y : Nat) yo', s'.get y = some yo' → yo'.pending = true → ∃ yo, s.get y = some yo ∧ yo.pending = true
